@@ -208,6 +208,27 @@ pub fn run(o: &Opts) -> Report {
             other => rep.disagree(Disagreement { case, got: format!("{:?}", other.map(|r| r.map(|(f, d)| (f, hex(&d))).map_err(|e| format!("{e:?}")))), expected: format!("({f}, {})", hex(&exp_d)), class: "violation", obligation: "C05: read_alpha_chunk returns the filter and the delta plane (raw bytes, or green channel of the VP8L stream with implicit dimensions)".into(), detail: String::new() }),
         }
     }
+    // (b') grammar-generated VP8L streams as ALPH bodies: any transforms in any order, colour cache,
+    // meta prefix codes, arbitrary red/blue/alpha samples - everything the lossless format allows,
+    // not only what an alpha encoder writes.  Expected delta plane = green channel of the image
+    // libwebp decodes from the same stream with its 5-byte header in front.
+    let ng = if o.thorough() { 1500 } else { 250 };
+    for _ in 0..ng {
+        let (w, h) = (rng.range(1, 24) as u32, rng.range(1, 14) as u32);
+        let (s, _feat) = crate::vp8lgen::stream(&mut rng, w, h);
+        let Some((_, _, rgba)) = oracle::decode_rgba(&riff(&chunk(b"VP8L", &s))) else { rep.hit("alph_generated_rejected_by_libwebp"); continue };
+        let green: Vec<u8> = rgba.chunks_exact(4).map(|p| p[1]).collect();
+        let f = rng.below(4) as u8;
+        let mut body = vec![(f << 2) | 1];
+        body.extend_from_slice(&s[5..]);
+        let case = format!("readalph {w} {h} {}", hex(&body));
+        rep.case(&case, true);
+        rep.hit("read_alph_generated_vp8l");
+        match catch(|| hk::read_alph(&body, w as u16, h as u16)) {
+            Ok(Ok((ff, data))) if ff == f && data == green => {}
+            other => rep.disagree(Disagreement { case, got: format!("{:?}", other.map(|r| r.map(|(f, d)| (f, hex(&d))).map_err(|e| format!("{e:?}")))), expected: format!("({f}, {})", hex(&green)), class: "violation", obligation: "C05: a losslessly compressed alpha plane is the green channel of the VP8L image the stream defines (every transform applied), as libwebp decodes it".into(), detail: "grammar-generated VP8L stream as ALPH body".into() }),
+        }
+    }
     // (c) files
     let nc = if o.thorough() { 600 } else { 96 };
     for i in 0..nc {
